@@ -147,11 +147,10 @@ Proof.
   destruct H as [H|[]]. injection H as E1 E2 E3 E4. subst col0 a' c0 v0. exists col, a0, c, v. split; [exact Hin|exact E].
 Qed.
 
-Lemma ledger_row_account_ok cfg dl row : postings_syntactic dl -> ledger_row cfg dl row -> account_ok row = true.
+Lemma ledger_entry_account_ok cfg dl part col a c v :
+  postings_syntactic dl -> In (col, a, c, v) (ledger_entries cfg dl part) -> account_ok a = true.
 Proof.
-  intros Hsyn H. unfold ledger_row in H.
-  destruct (new_partition _ _ _) as [part| |]; [|destruct H|destruct H].
-  destruct H as ([[[col a] c] v] & He & Hrow).
+  intros Hsyn He. unfold ledger_entries in He.
   apply mapped_entries_acc in He. destruct He as (col0 & a0 & c0 & v0 & Hin & Hsh).
   assert (Ha0 : account_ok a0 = true).
   { apply in_app_or in Hin. destruct Hin as [Hin|Hin].
@@ -160,8 +159,15 @@ Proof.
       apply closing_entries_acc in Hin. destruct Hin as [->|(k & Hk & ->)]; [exact account_ok_equity|].
       apply closable_keys_acc in Hk. destruct Hk as (d & p & Hdp & ->). exact (Hsyn d p Hdp). }
   destruct (remap_ok (bc_remap cfg) a0 Ha0) as [H1 _].
-  destruct (shorten_ok _ _ _ H1 Hsh) as [H2 _].
-  exact (prefix_account_ok a row H2 Hrow).
+  exact (proj1 (shorten_ok _ _ _ H1 Hsh)).
+Qed.
+
+Lemma ledger_row_account_ok cfg dl row : postings_syntactic dl -> ledger_row cfg dl row -> account_ok row = true.
+Proof.
+  intros Hsyn H. unfold ledger_row in H.
+  destruct (new_partition _ _ _) as [part| |]; [|destruct H|destruct H].
+  destruct H as ([[[col a] c] v] & He & Hrow).
+  exact (prefix_account_ok a row (ledger_entry_account_ok cfg dl part col a c v Hsyn He) Hrow).
 Qed.
 
 (* ------------------------------------------------------------ commodities of a node *)
